@@ -30,12 +30,19 @@ type c06Variant struct {
 
 var c06Variants = []c06Variant{
 	{"base", nil},
-	{"loc-r1", func(cs *clientSpec, n *core.Node, m *model.NodeMetadata) { n.Locality = &core.Locality{Region: "region1", Zone: "zone1"} }},
-	{"loc-r2", func(cs *clientSpec, n *core.Node, m *model.NodeMetadata) { n.Locality = &core.Locality{Region: "region2", Zone: "zone2"} }},
+	{"loc-r1", func(cs *clientSpec, n *core.Node, m *model.NodeMetadata) {
+		n.Locality = &core.Locality{Region: "region1", Zone: "zone1"}
+	}},
+	{"loc-r2", func(cs *clientSpec, n *core.Node, m *model.NodeMetadata) {
+		n.Locality = &core.Locality{Region: "region2", Zone: "zone2"}
+	}},
 	{"net1", func(cs *clientSpec, n *core.Node, m *model.NodeMetadata) { m.Network = "network1" }},
 	{"cluster2", func(cs *clientSpec, n *core.Node, m *model.NodeMetadata) { m.ClusterID = "cluster2" }},
 	{"v128", func(cs *clientSpec, n *core.Node, m *model.NodeMetadata) { m.IstioVersion = "1.28.0" }},
-	{"dns", func(cs *clientSpec, n *core.Node, m *model.NodeMetadata) { m.DNSCapture = true; m.DNSAutoAllocate = true }},
+	{"dns", func(cs *clientSpec, n *core.Node, m *model.NodeMetadata) {
+		m.DNSCapture = true
+		m.DNSAutoAllocate = true
+	}},
 	{"bar", func(cs *clientSpec, n *core.Node, m *model.NodeMetadata) { m.Labels = map[string]string{"app": "bar"} }},
 	{"ns-b", func(cs *clientSpec, n *core.Node, m *model.NodeMetadata) { m.Namespace = "b" }},
 }
